@@ -156,7 +156,10 @@ def parse_out_param(expr, require_default=False, emit_default_doc=True):
     )(
         next(
             (
-                get_value(key_word.value)
+                # argparse re-flows help text itself: line breaks from word-wrapping are not part of the prose
+                " ".join(map(str.strip, get_value(key_word.value).split("\n")))
+                if isinstance(get_value(key_word.value), str)
+                else get_value(key_word.value)
                 for key_word in expr.value.keywords
                 if key_word.arg == "help" and key_word.value
             ),
